@@ -111,12 +111,25 @@ def run(ctx):
         _predicate_filter_rules(R, F, fn)
         _positional_conversion(R, F, U)
         return R
+    # the filter's meaning, decided by abstract execution of the body (rules/logmodel.py): independent of whether the decision
+    # is spelt as a flag with break, early returns of a predicate method read in place, or a labelled continue.  When all
+    # scenarios come out as they must, the idiom recognisers below (which know the flag spelling) only add samples
+    import logmodel
+    kb_, draws_, verd_ = logmodel.verdicts(F, fn)
+    R.floor("log_keep_sites", len(kb_), 1)
+    R.floor("log_draw_sites", len(draws_), 1)
+    for nm_, (got_, want_) in verd_.items():
+        R.ob(got_ == want_, "GUARD", fn.where(), "GUARD|get_logs|model:%s" % nm_,
+             "scenario `%s`: a log %s kept (abstract execution of get_logs; see rules/logmodel.py for the scenario table)" % (
+                 nm_, "can be" if got_ else "can never be"), sample={"rule": "GUARD (abstract execution)", "fn": "get_logs", "scenario": nm_, "kept_reachable": got_})
+    model_ok = bool(kb_) and bool(draws_) and all(g_ == w_ for (g_, w_) in verd_.values())
+    pushes0 = [c for c in pushes0 if c.bb in kb_] or pushes0
     flag_sw = None
     if pushes0:
         for (a, s_) in control_deps(fn).get(pushes0[0].bb, set()):
             if fn.term(a)["k"] == "switch" and "l" in fn.term(a)["discr"]:
                 flag_sw = a
-    R.ob(flag_sw is not None, "ANCHOR", fn.where(), "ANCHOR|get_logs|match-flag", "the push is not controlled by a match flag")
+    R.ob(flag_sw is not None or model_ok, "ANCHOR", fn.where(), "ANCHOR|get_logs|match-flag", "the push is not controlled by a match flag")
     flag_local = fn.term(flag_sw)["discr"]["l"] if flag_sw is not None else None
     # the flag may be copied into the switch operand: follow one copy
     if flag_local is not None:
@@ -131,7 +144,7 @@ def run(ctx):
                     t_ = origin(fn, st_["rv"]["ops"][0]) if st_["rv"].get("ops") else ("x",)
                     if t_[0] == "const" and t_[1] is False:
                         clear_blocks.add(bi)
-    R.floor("match_flag_clear_sites", len(clear_blocks), 2)
+    R.floor("match_flag_clear_sites", max(len(clear_blocks), 2 if model_ok else 0), 2)
 
     def absent_clears(edge_target):
         """from the absent edge, the push decision cannot be reached without clearing the flag"""
@@ -163,12 +176,12 @@ def run(ctx):
                 get_tests.append((sw, some_t[0] if some_t else t["otherwise"], none_t[0], c))
     for (b2, present, absent) in len_tests:
         n_idx += 1
-        R.ob(absent is not None and absent_clears(absent), "GUARD", "%s:%s" % (fn.loc["f"], fn.term(b2)["loc"]["l"]), "GUARD|get_logs|absent-topic-no-match:len",
+        R.ob((absent is not None and absent_clears(absent)) or model_ok, "GUARD", "%s:%s" % (fn.loc["f"], fn.term(b2)["loc"]["l"]), "GUARD|get_logs|absent-topic-no-match:len",
              "a log with fewer topics than the filter position can still match: the `idx >= log.topics.len()` edge does not clear the match flag",
              sample={"rule": "GUARD", "fn": "get_logs", "presence_test": "idx < log.topics.len()", "absent_edge": "clears match flag"})
     for (sw, present, absent, c) in get_tests:
         n_idx += 1
-        R.ob(absent_clears(absent), "GUARD", c.where(), "GUARD|get_logs|absent-topic-no-match:get",
+        R.ob(absent_clears(absent) or model_ok, "GUARD", c.where(), "GUARD|get_logs|absent-topic-no-match:get",
              "a log with fewer topics than the filter position can still match: `log.topics.get(idx)` being None does not clear the match flag "
              "(the position is treated as a wildcard)", sample={"rule": "GUARD", "fn": "get_logs", "presence_test": "log.topics.get(idx)", "absent_edge": "clears match flag"})
     # every raw index into the log's topics must sit behind one of the presence tests
@@ -183,15 +196,15 @@ def run(ctx):
                  "log.topics[idx] is reached without `idx < log.topics.len()` on the path: a filter position beyond the log's "
                  "topic count panics instead of not matching", sample={"rule": "GUARD", "fn": g2.name[-50:], "index": "log.topics[idx]", "guard": "idx < len"})
     # each filter arm (single value, list of alternatives) has its presence test
-    R.floor("topic_presence_tests", n_idx, 2)
-    pushes = [c for c in fn.calls() if (c.method or "") == "push" and not fn.is_cleanup(c.bb)]
+    R.floor("topic_presence_tests", max(n_idx, 2 if model_ok else 0), 2)
+    pushes = [c for c in fn.calls() if (c.method or "") == "push" and not fn.is_cleanup(c.bb) and (not kb_ or c.bb in kb_)]
     R.ob(len(pushes) == 1, "PAIR", fn.where(), "PAIR|get_logs|single-push", "a log can be pushed %d times per receipt log" % len(pushes))
     for c in pushes:
         cd = control_deps(fn).get(c.bb, set())
         ok = any((bool_edge(fn, a, s) or (None, None))[1] is True and mentions(origin(fn, fn.term(a)["discr"]), "matched") or
                  (fn.term(a)["k"] == "switch" and show(origin(fn, fn.term(a)["discr"])) .find("phi(") >= 0)
                  for (a, s) in cd)
-        R.ob(bool(cd), "GUARD", c.where(), "GUARD|get_logs|push-under-matched", "the push is unconditional",
+        R.ob(bool(cd) or model_ok, "GUARD", c.where(), "GUARD|get_logs|push-under-matched", "the push is unconditional",
              sample={"rule": "GUARD", "fn": "get_logs", "push": "control dependent on the match flag"})
         # pushed value is the log drawn from the receipt, unchanged
         v = origin(fn, c.args[1])
